@@ -236,6 +236,18 @@ class Gen:
             nm = rng.choice(self.allnames(spec))
             return rng.choice(["*", nm, nm[:1] + "*", [nm[:1] + "*", "*"], [nm, nm[:1] + "*"], "*" + nm[-1:], (nm, "nomatch")])
 
+        ntot = len(self.allnames(spec))
+        if rng.random() < (0.25 if staged else 0.1) and 1 <= ntot <= 6:
+            # the database is emptied and filled again with AS MANY series from a file in another directory (anything remembered
+            # about the former keys -- their number, their common path -- is stale although the size is what it was)
+            ops.append(["query"])
+            if staged:
+                ops.append(["ask", None])
+            ops.append(["clearp", "*"])
+            ops.append(["load", [os.path.join(self.newdir(), rng.choice(["f.pkl", "g.pkl", "h.pkl"])),
+                                 rng.sample(POOL, ntot), 70 + len(ops), rng.choice(HOWS)]])
+            if staged:
+                ops.append(["ask", None])
         for _ in range(rng.choice([2, 3, 4]) if staged else rng.choice([1, 1, 2, 3])):
             kind = rng.choice(["query", "get", "get", "getm", "rename", "rename", "clear", "add", "update", "load",
                                "clearp", "copy", "iter", "bad", "renamep"])
